@@ -240,3 +240,66 @@ def adversarial_warmup():
                 getattr(c, n)
             except Exception:
                 pass
+    # ... and every converter of every class has converted values before: valid ones of its own kind (all tokens of
+    # every enumeration), and refused ones.  A converter that remembers what it - or another converter - has accepted
+    # then shows its memory in the converter contracts.
+    try:
+        from ofxtools import Types
+    except Exception:
+        return
+    import warnings
+    seen = set()
+    with warnings.catch_warnings():
+        warnings.simplefilter("ignore")
+        for c in order:
+            try:
+                elems = list(c.spec.values())
+            except Exception:
+                continue
+            for t in elems:
+                t = getattr(t, "converter", t)
+                if id(t) in seen or not hasattr(t, "convert"):
+                    continue
+                seen.add(id(t))
+                if isinstance(t, Types.OneOf):
+                    vals = list(getattr(t, "valid", ()))[:400] + ["!!not-a-token!!"]
+                elif isinstance(t, Types.Bool):
+                    vals = ["Y", "N", "Q"]
+                elif isinstance(t, Types.DateTime):
+                    vals = ["20200101", "120000", "20051020120000.000[-5:EST]", "2005102012", "bad"]
+                elif isinstance(t, (Types.Integer, Types.Decimal)):
+                    vals = ["1", "-12", "1.50", "x"]
+                elif isinstance(t, Types.String):
+                    vals = ["x", "R&amp;D", "y" * 300]
+                else:
+                    continue
+                for v in vals:
+                    for mth in ("convert",):
+                        try:
+                            getattr(t, mth)(v)
+                        except Exception:
+                            pass
+        # ... and whole documents have been parsed and converted before, successfully and unsuccessfully (a refused
+        # enumeration token deep inside, a truncated body, an unknown class): what a failed conversion leaves behind
+        # must not change what later calls accept or write
+        try:
+            import io
+            from ofxtools.Parser import OFXTree
+            from ofxtools.models.base import Aggregate
+            import xml.etree.ElementTree as ET
+            hdr = b"OFXHEADER:100\r\nDATA:OFXSGML\r\nVERSION:102\r\nSECURITY:NONE\r\nENCODING:USASCII\r\nCHARSET:NONE\r\nCOMPRESSION:NONE\r\nOLDFILEUID:NONE\r\nNEWFILEUID:NONE\r\n\r\n"
+            good = b"<OFX><SIGNONMSGSRSV1><SONRS><STATUS><CODE>0<SEVERITY>INFO</STATUS><DTSERVER>20200101<LANGUAGE>ENG</SONRS></SIGNONMSGSRSV1></OFX>"
+            for body in (good, good.replace(b"INFO", b"BOGUS"), good[:60], good.replace(b"SONRS", b"NOSUCHTHING"), good.replace(b"20200101", b"2020"), good):
+                try:
+                    p = OFXTree()
+                    p.parse(io.BytesIO(hdr + body))
+                    p.convert()
+                except Exception:
+                    pass
+            for xml in ("<STATUS><CODE>0</CODE><SEVERITY>WRONG</SEVERITY></STATUS>", "<STATUS><SEVERITY>INFO</SEVERITY><CODE>0</CODE></STATUS>", "<NOPE><A>1</A></NOPE>"):
+                try:
+                    Aggregate.from_etree(ET.fromstring(xml))
+                except Exception:
+                    pass
+        except Exception:
+            pass
